@@ -1,6 +1,5 @@
 #!/bin/bash
-# tools/mkmutant.sh <name> <file-rel-path> <python-expr-transform>  : builds mutants/<name>.patch from an in-place python edit
-# usage: tools/mkmutant.sh name path 's.replace("a","b")'
+# like mkmutant.sh but writes refactors/<name>.patch (behaviour-preserving edits: every check must stay silent)
 set -e
 N=$1; F=$2; E=$3
 W=$(mktemp -d /var/tmp/acq-mk.XXXXXX); trap 'rm -rf "$W"' EXIT
@@ -17,5 +16,5 @@ assert t!=s, "transform changed nothing"
 if crlf: t=t.replace('\n','\r\n')
 open(p,'wb').write(t.encode())
 PY
-( cd $W && diff -u a/$F b/$F > /verif/mutants/$N.patch ) || true
-echo "mutants/$N.patch: $(grep -c '^[-+][^-+]' /verif/mutants/$N.patch) changed lines"
+( cd $W && diff -u a/$F b/$F > /verif/refactors/$N.patch ) || true
+echo "refactors/$N.patch: $(grep -c '^[-+][^-+]' /verif/refactors/$N.patch) changed lines"
